@@ -38,27 +38,29 @@ type Base struct {
 
 // Item is one input line: a point ("P"), a credential case ("C") or a request for random cases ("R").
 type Item struct {
-	Kind   string    `json:"kind"`
-	Tag    string    `json:"tag"`
-	H      string    `json:"h"`
-	W      int64     `json:"w"`
-	A      int64     `json:"a"`
-	B      int64     `json:"b"`
-	Ej     int64     `json:"ej"`
-	Fn     string    `json:"fn"`
-	Base   Base      `json:"base"`
-	Pert   string    `json:"pert"`
-	Expect string    `json:"expect"`
-	N      int       `json:"n"`
-	MaxW   int64     `json:"maxw"`
-	Ops    []SeqOp   `json:"ops"`
-	AOps   []AliasOp `json:"aops"`
-	K      int       `json:"k"`
-	Sd     int       `json:"sd"`
-	Ix     int       `json:"ix"`
-	St     int       `json:"st"`
-	Hid    int       `json:"hid"`
-	J      int64     `json:"j"`
+	Kind    string    `json:"kind"`
+	Tag     string    `json:"tag"`
+	H       string    `json:"h"`
+	W       int64     `json:"w"`
+	A       int64     `json:"a"`
+	B       int64     `json:"b"`
+	Ej      int64     `json:"ej"`
+	Fn      string    `json:"fn"`
+	Base    Base      `json:"base"`
+	Pert    string    `json:"pert"`
+	Expect  string    `json:"expect"`
+	N       int       `json:"n"`
+	MaxW    int64     `json:"maxw"`
+	Ops     []SeqOp   `json:"ops"`
+	AOps    []AliasOp `json:"aops"`
+	K       int       `json:"k"`
+	Sd      int       `json:"sd"`
+	Ix      int       `json:"ix"`
+	St      int       `json:"st"`
+	Hid     int       `json:"hid"`
+	J       int64     `json:"j"`
+	JMax    int64     `json:"jmax"`
+	Targets []int64   `json:"targets"`
 }
 
 // Tup is the (key, seed variant, index, step) tuple of a sequence operation.
@@ -203,6 +205,103 @@ func (wd *world) issue(env *drive.Env, bs Base, emit bool) (common.Hash, []byte,
 	return val, proof, int64(j)
 }
 
+// seatHash is the PROTOCOL definition of the hash of seat i (Sortition.tla, PrioCases): keccak256(output || I2OSP(i)), I2OSP(i) the
+// minimal big-endian bytes of i.
+func seatHash(val common.Hash, i int64) common.Hash {
+	var buf [40]byte
+	copy(buf[:32], val[:])
+	n := 32
+	// I2OSP: minimal big-endian bytes, most significant first; nothing for i = 0
+	started := false
+	for shift := 56; shift >= 0; shift -= 8 {
+		b := byte(uint64(i) >> uint(shift))
+		if b != 0 || started {
+			started = true
+			buf[n] = b
+			n++
+		}
+	}
+	return crypto.Keccak256Hash(buf[:n])
+}
+
+// argmaxPrefix returns the argmax over 0..j and over 0..jp (jp <= j) in one pass.
+func argmaxPrefix(val common.Hash, j, jp int64) (am, amp int64) {
+	best := seatHash(val, 0)
+	for i := int64(1); i <= j; i++ {
+		if h := seatHash(val, i); bytes.Compare(h[:], best[:]) > 0 {
+			best, am = h, i
+		}
+		if i == jp {
+			amp = am
+		}
+	}
+	return
+}
+
+// argmaxOf returns the seat in 0..j with the largest reference hash.
+func argmaxOf(val common.Hash, j int64) int64 {
+	best, bi := seatHash(val, 0), int64(0)
+	for i := int64(1); i <= j; i++ {
+		if h := seatHash(val, i); bytes.Compare(h[:], best[:]) > 0 {
+			best, bi = h, i
+		}
+	}
+	return bi
+}
+
+// argmaxSearch: a deterministic search over VRF outputs (hash inputs keccak("c04-argmax", seed, n)) until, for jmax seats and for the
+// first 600 seats, the seat with the largest hash is each of the wanted seat indices (0, the one-byte / two-byte boundary 255 256 257,
+// multiples of 256, ...); for every hit the real computePriority is recorded next to ALL per-seat reference hashes.
+func (wd *world) argmaxSearch(env *drive.Env, jmax int64, targets []int64) {
+	want := map[[2]int64]bool{}
+	for _, t := range targets {
+		want[[2]int64{jmax, t}] = true
+		if t <= 600 && jmax > 600 {
+			want[[2]int64{600, t}] = true
+		}
+	}
+	for n := int64(0); n < 20000 && len(want) > 0; n++ {
+		h := crypto.Keccak256Hash([]byte("c04-argmax"), big.NewInt(env.Seed).Bytes(), big.NewInt(n).Bytes())
+		am, amp := argmaxPrefix(h, jmax, 600)
+		for _, c := range [][2]int64{{jmax, am}, {600, amp}} {
+			if want[c] {
+				delete(want, c)
+				wd.priorityAt(env, h, c[0], c[1])
+			}
+		}
+	}
+	if len(want) > 0 {
+		env.Emit(map[string]interface{}{"ev": "note", "msg": fmt.Sprintf("argmax search: %d targets not reached", len(want))})
+	}
+}
+
+// argmaxCredential: the same with REAL credentials: seeds are searched until the winner of several hundred seats (stake w, p = a/b) has
+// its largest seat hash on a positive multiple of 256; the credential is then verified with the priority the code computes and with the
+// reference maximum (both must be accepted: they are the same value).
+func (wd *world) argmaxCredential(env *drive.Env, w, a, b int64) {
+	for n := 0; n < 4000; n++ {
+		bs := Base{K: 1, Sd: 5000 + n + int(env.Seed)*10000, Ix: 1, St: 1, W: w, A: a, B: b}
+		val, _, j := wd.issue(env, bs, false)
+		if j < 256 {
+			continue
+		}
+		if am := argmaxOf(val, j); am > 0 && am%256 == 0 {
+			wd.issue(env, bs, true)
+			env.Emit(map[string]interface{}{"ev": "argmax", "j": j, "argmax": am})
+			wd.verify(env, "priority", bs, "none", "issued")
+			wd.verify(env, "priority", bs, "ref_max", "issued")
+			wd.verify(env, "priority", bs, "prio_seat", "reject")
+			return
+		}
+	}
+	env.Emit(map[string]interface{}{"ev": "note", "msg": "argmax credential search: no seed found"})
+}
+
+func (wd *world) priorityAt(env *drive.Env, val common.Hash, j, am int64) {
+	wd.priority(env, val, j)
+	env.Emit(map[string]interface{}{"ev": "argmax", "j": j, "argmax": am})
+}
+
 // priority records computePriority(hash, j) next to the hash of every seat 0..j (keccak(hash || i), i as minimal big-endian bytes).
 func (wd *world) priority(env *drive.Env, val common.Hash, j int64) {
 	if j > 2000 {
@@ -278,6 +377,8 @@ func (wd *world) verify(env *drive.Env, fn string, bs Base, pert, expect string)
 		a--
 	case "th*2":
 		a *= 2
+	case "ref_max": // the reference maximum over the seats 0..ji (what the statement calls the priority)
+		prio = seatHash(val, argmaxOf(val, ji))
 	case "prio_flip":
 		prio[31] ^= 0x01
 	case "prio_seat":
@@ -641,6 +742,10 @@ func run(env *drive.Env) error {
 			wd.alias(env, it.AOps)
 		case "U":
 			wd.unique(env, it.K, it.Sd, it.Ix, it.St)
+		case "X":
+			wd.argmaxSearch(env, it.JMax, it.Targets)
+		case "XC":
+			wd.argmaxCredential(env, it.W, it.A, it.B)
 		case "Q":
 			h := crypto.Keccak256Hash([]byte("c04-prio"), big.NewInt(int64(it.Hid)).Bytes(), big.NewInt(env.Seed).Bytes())
 			wd.priority(env, h, it.J)
